@@ -315,38 +315,54 @@ func (its *PushPullHandler) pushOperations() errors.OrdaError {
 }
 
 func (its *PushPullHandler) processSubscribeOrCreate(code pushPullCase) errors.OrdaError {
+	// Every arm that returns no error ends in initClientInfoWithDatatypeDoc(), which attaches the client to
+	// its.datatypeDoc: an arm may fall through only if that is the datatype the request names.
 	if its.gotOption.HasSubscribeBit() && its.gotOption.HasCreateBit() {
 		switch code {
 		case caseMatchNothing:
 			return its.createDatatype()
+		case caseUsedDUID: // nothing to subscribe, and cannot create: the DUID belongs to a datatype with another key
+			return its.errUsedDUID()
+		case caseMatchKeyNotType, caseAllMatchedNotVisible: // cannot subscribe, and the key is already used
+			return errors.PushPullDuplicateKey.New(its.ctx.L(), its.Key)
+		case caseAllMatchedSubscribed: // already subscribed; might duplicate request
 		case caseAllMatchedNotSubscribed:
 			return its.subscribeDatatype()
 		}
 	} else if its.gotOption.HasSubscribeBit() {
 		switch code {
-		case caseMatchNothing:
+		case caseMatchNothing, caseUsedDUID, caseMatchKeyNotType, caseAllMatchedNotVisible:
+			// no (visible) datatype of this type has the key; the DUID of a subscribing request means nothing
 			return errors.PushPullNoDatatypeToSubscribe.New(its.ctx.L(), its.Key)
-		case caseUsedDUID:
-		case caseMatchKeyNotType:
-		case caseAllMatchedSubscribed:
+		case caseAllMatchedSubscribed: // already subscribed; might duplicate subscription
 		case caseAllMatchedNotSubscribed:
 			return its.subscribeDatatype()
-		case caseAllMatchedNotVisible:
 		}
 	} else if its.gotOption.HasCreateBit() {
 		switch code {
 		case caseMatchNothing: // can create with key and duid
 			return its.createDatatype()
 		case caseUsedDUID: // duplicate DUID; can create with key but with another DUID
-		case caseMatchKeyNotType: // key is already used;
+			return its.errUsedDUID()
 		case caseAllMatchedSubscribed: // already created and subscribed; might duplicate creation; do nothing
-		case caseAllMatchedNotSubscribed: // error: already created but not subscribed;
+		case caseMatchKeyNotType, // key is already used;
+			caseAllMatchedNotSubscribed, // error: already created but not subscribed;
+			caseAllMatchedNotVisible:    // already created, though hidden
 			return errors.PushPullDuplicateKey.New(its.ctx.L(), its.Key)
-		case caseAllMatchedNotVisible: //
 		default:
+		}
+	} else {
+		switch code {
+		case caseMatchNothing: // an ordinary push-pull for a DUID that no datatype has
+			return errors.PushPullNoDatatypeToSubscribe.New(its.ctx.L(), its.Key)
+		case caseUsedDUID: // the ordinary case: the datatype is found by its DUID
 		}
 	}
 	return its.initClientInfoWithDatatypeDoc()
+}
+
+func (its *PushPullHandler) errUsedDUID() errors.OrdaError {
+	return errors.PushPullAbortionOfClient.New(its.ctx.L(), "cannot create: the DUID '"+its.DUID+"' is used by another datatype")
 }
 
 func (its *PushPullHandler) subscribeDatatype() errors.OrdaError {
